@@ -4,9 +4,12 @@
    known or unknown size per master, the payload bytes of every element (any bytes the element's type decodes to the value).
    [conf c ids t] says the tree conforms to the specification: ids are well-formed vints, every element is declared with
    exactly the chain of masters it sits in as its path, payloads decode, sizes fit their fields and the configured limit.
+   Writer half and the round trip (second part): writing a conforming document tag by tag (Start / elements / End, default
+   options or explicit size widths, unknown size by option) into a destination that accepts everything emits exactly that
+   encoding, every call succeeds, and the strict reader yields the written tags.
    PARTIAL: declared paths without global placeholders; tags written as Full are covered through C09_full_decomposes
-   (a Full is written as Start, children, End); raw tags are covered by the correspondence check only. *)
-From Ebml Require Import Base Tools Spec Writer Reader Pure Encode Proofs.Tactics Proofs.ReaderIO Proofs.Refine Proofs.PureProofs Proofs.RoundTrip.
+   (a Full is buffered as Start, children, End); raw tags are covered by the correspondence check only. *)
+From Ebml Require Import Base Tools Spec Writer Reader Pure Encode Proofs.Tactics Proofs.ReaderIO Proofs.Refine Proofs.PureProofs Proofs.RoundTrip Proofs.WriteEnc.
 
 (* every conforming document — any nesting depth, any payloads, any size widths, any subset of masters of unknown size — is
    read back as exactly its items (masters as Start/End pairs, offsets of the first byte of each element), then None *)
@@ -61,3 +64,59 @@ Example C01_ex_run :
     [OItem (TStart 129) 0; OItem (TStart 16643) 9; OItem (TElem 16642 (VB [7])) 19; OItem (TEnd 16643) 9;
      OItem (TElem 16641 (VU 5)) 23; OItem (TEnd 129) 0; OItem (TStart 129) 29; OItem (TEnd 129) 29; ONone].
 Proof. vm_compute. reflexivity. Qed.
+
+(* ------------------------------------------------------------------ writer half and the round trip *)
+(* [wconf sp d ids t]: the writer's view of conformance: declared type/path, value of the declared kind, payload = the
+   writer's encoding of the value, size width = the explicit one (d = false) or the smallest one (d = true, default options) *)
+Theorem C01_writer_encodes_partial : forall sp d f, Forall (wconf sp d []) f ->
+  (Forall (fun r => fst r = WOk) (fst (run_writer sp (wops_forest d f) []))) /\ (snd (run_writer sp (wops_forest d f) []) = enc_forest f).
+Proof. exact writer_encodes. Qed.
+
+(* [rconf c t]: ids are vints, values in range (u64 / i64 / f64 bit patterns, valid UTF-8), sizes within the reader's limit *)
+Theorem C01_roundtrip_partial : forall c d f, strict c -> c_buffered c = [] -> c_emit_eof c = true ->
+  Forall (wconf (c_sp c) d []) f -> Forall (rconf c) f ->
+  Forall (fun r => fst r = WOk) (fst (run_writer (c_sp c) (wops_forest d f) [])) /\
+  map out_tag (p_run c (snd (run_writer (c_sp c) (wops_forest d f) [])) [RAll]) = map op_tag (wops_forest d f) ++ [None].
+Proof. exact write_read_roundtrip. Qed.
+
+Definition C01_doc2 : list rtree :=
+  [ RNode 129 None [ RNode 16643 None [ RLeaf 16642 (VB [7]) [7] 1%nat ]; RLeaf 16641 (VU 5) [5] 1%nat ]; RNode 129 (Some 1%nat) [] ].
+
+Example C01_ex_wconf : Forall (wconf C01_sp true []) C01_doc2 /\ Forall (rconf C01_cfg) C01_doc2.
+Proof.
+  assert (I1 : idok 129) by (exists 1%nat, 1; repeat split; cbn; lia).
+  assert (I2 : idok 16643) by (exists 2%nat, 259; repeat split; cbn; lia).
+  assert (I3 : idok 16642) by (exists 2%nat, 258; repeat split; cbn; lia).
+  assert (I4 : idok 16641) by (exists 2%nat, 257; repeat split; cbn; lia).
+  assert (F1 : forall n, n < 127 -> field_ok true 1 n).
+  { intros n Hn. split; [lia|]. split; [change (2 ^ (7 * N.of_nat 1) - 1) with 127; exact Hn|]. intros _. symmetry. apply find_size_len_small, Hn. }
+  split.
+  - assert (L1 : wconf C01_sp true [129; 16643] (RLeaf 16642 (VB [7]) [7] 1%nat)).
+    { split; [reflexivity|]. exists DBinary. repeat split; try discriminate; try apply F1; cbn; lia. }
+    assert (L2 : wconf C01_sp true [129] (RLeaf 16641 (VU 5) [5] 1%nat)).
+    { split; [reflexivity|]. exists DUInt. repeat split; try discriminate; try apply F1; cbn; lia. }
+    constructor; [|constructor; [|constructor]].
+    + apply wconf_node. split; [reflexivity|]. split; [reflexivity|]. split; [intros sl Hsl; discriminate Hsl|].
+      constructor; [|constructor; [exact L2|constructor]].
+      apply wconf_node. split; [reflexivity|]. split; [reflexivity|]. split; [intros sl Hsl; discriminate Hsl|]. constructor; [exact L1|constructor].
+    + apply wconf_node. split; [reflexivity|]. split; [reflexivity|]. split; [|constructor].
+      intros sl Hsl. injection Hsl as <-. apply F1. vm_compute. reflexivity.
+  - assert (R1 : rconf C01_cfg (RLeaf 16642 (VB [7]) [7] 1%nat)).
+    { split; [exact I3|]. split; [repeat constructor; lia|vm_compute; discriminate]. }
+    assert (R2 : rconf C01_cfg (RLeaf 16641 (VU 5) [5] 1%nat)).
+    { split; [exact I4|]. split; [vm_compute; reflexivity|vm_compute; discriminate]. }
+    constructor; [|constructor; [|constructor]].
+    + apply rconf_node. split; [exact I1|]. split; [exact I|].
+      constructor; [|constructor; [exact R2|constructor]].
+      apply rconf_node. split; [exact I2|]. split; [exact I|]. constructor; [exact R1|constructor].
+    + apply rconf_node. split; [exact I1|]. split; [vm_compute; discriminate|constructor].
+Qed.
+
+Example C01_ex_roundtrip :
+  run_writer C01_sp (wops_forest true C01_doc2) [] =
+    ([(WOk, 9); (WOk, 19); (WOk, 23); (WOk, 23); (WOk, 27); (WOk, 27); (WOk, 27); (WOk, 29)]%nat,
+     [129; 1; 255; 255; 255; 255; 255; 255; 255; 65; 3; 1; 255; 255; 255; 255; 255; 255; 255; 65; 2; 129; 7; 65; 1; 129; 5; 129; 128]) /\
+  map out_tag (p_run C01_cfg (snd (run_writer C01_sp (wops_forest true C01_doc2) [])) [RAll]) =
+    [Some (TStart 129); Some (TStart 16643); Some (TElem 16642 (VB [7])); Some (TEnd 16643); Some (TElem 16641 (VU 5)); Some (TEnd 129);
+     Some (TStart 129); Some (TEnd 129); None].
+Proof. vm_compute. split; reflexivity. Qed.
